@@ -125,8 +125,8 @@ PROFILES = {
         "max_samples": 8,
     },
     "c03": {"narrow_crit_p": 0.6, "fp_gt_p": 0.2, "tasks": {"detection": 4, "tracking": 3, "fp_validation": 3}},
-    "c16": {"ego_tilt_p": 0.5, "max_samples": 24, "max_actors": 16, "enable_p": 0.1, "tasks": {"detection": 3, "tracking": 3, "fp_validation": 1}},
-    "c19": {"analyze_p": 1.0, "force": ["analyze"], "fp_gt_p": 0.15, "max_samples": 10,
+    "c16": {"sibling_p": 0.5, "ego_tilt_p": 0.5, "max_samples": 24, "max_actors": 16, "enable_p": 0.1, "tasks": {"detection": 3, "tracking": 3, "fp_validation": 1}},
+    "c19": {"sibling_p": 0.35, "analyze_p": 1.0, "force": ["analyze"], "fp_gt_p": 0.15, "max_samples": 10,
             "tasks": {"detection": 5, "tracking": 3, "fp_validation": 2}},
     "c01": {"force": ["ghost", "dup_detection"], "contested_p": 0.7, "tasks": {"detection": 5, "tracking": 2, "fp_validation": 3},
             "fp_gt_p": 0.2},
@@ -661,8 +661,12 @@ def make_plan(seed, run, profile_name, clean=None, force=None):
             objs.append(o)
             if fire("dup_detection"):
                 d = copy.deepcopy(o)
-                d["pose"][0] = _r(d["pose"][0] + rng.uniform(-0.5, 0.5))
-                d["pose"][1] = _r(d["pose"][1] + rng.uniform(-0.5, 0.5))
+                if rng.random() < 0.75:
+                    d["pose"][0] = _r(d["pose"][0] + rng.uniform(-0.5, 0.5))
+                    d["pose"][1] = _r(d["pose"][1] + rng.uniform(-0.5, 0.5))
+                else:
+                    # an exact double: same centre, heading and label, another box size
+                    d["size"] = [round(max(0.05, v * rng.uniform(0.5, 1.6)), 3) for v in d["size"]]
                 d["conf"] = _r(min(0.999999, max(0.000001, conf - rng.uniform(0.01, 0.2))), 6)
                 d["faults"] = f + ["dup_detection"]
                 if tracking and not fire("id_dup"):
@@ -825,6 +829,8 @@ def make_plan(seed, run, profile_name, clean=None, force=None):
         )
         lookups.append({"t": int(t), "tol": int(tl), "interp": rng.random() < 0.6})
 
+    reuse_configs = rng.random() < 0.5
+    sibling = rng.random() < prof.get("sibling_p", 0.0)
     plan = {
         "version": 1,
         "seed": seed,
@@ -845,5 +851,32 @@ def make_plan(seed, run, profile_name, clean=None, force=None):
         "ops": ops,
         "lookups": lookups,
         "twins": list(prof["twins"]),
+        # a driver may build its per-frame configs once and pass the same objects for every frame, or build new ones
+        "reuse_configs": reuse_configs,
+        "sibling": sibling,
     }
     return plan
+
+
+def derive_sibling(plan, dx=137.5, dy=-71.25, dz=0.4, dyaw=0.7):
+    """A second recording of the same scenario somewhere else on the map: every global pose is moved by one rigid
+    motion, timestamps / tokens / ego-relative geometry stay the same.  Used to load and analyse two different
+    datasets inside one process (state keyed by timestamp, token or frame number must not leak between them)."""
+    p2 = dict(plan)
+    w = copy.deepcopy(plan["world"])
+    c, s_ = math.cos(dyaw), math.sin(dyaw)
+
+    def move(pose):
+        x, y, z, yaw = pose
+        return [_r(c * x - s_ * y + dx), _r(s_ * x + c * y + dy), _r(z + dz), _r(rm.wrap(yaw + dyaw), 6)]
+
+    for smp in w["samples"]:
+        smp["ego"] = move(smp["ego"])
+        smp.pop("ego_rp", None)
+    for a in w["actors"]:
+        for st in a["states"]:
+            if st is not None:
+                st["pose"] = move(st["pose"])
+    p2["world"] = w
+    p2["sibling_of"] = [plan["seed"], plan["run"]]
+    return p2
